@@ -614,7 +614,7 @@ func (x *Exec) opRefresh(st *Step) {
 		x.St.inc("refresh-family-mismatch")
 	default:
 		if !success {
-			x.fail([]string{"C06", "C14"}, "refresh-refused", "Refresh of a live allocation (model deadline in %v) by its owner answered with %s", time.Until(a.Deadline), respDesc(rq.resp))
+			x.fail([]string{"C06", "C14", "C09"}, "refresh-refused", "Refresh of a live allocation (model deadline in %v) by its owner answered with %s", time.Until(a.Deadline), respDesc(rq.resp))
 
 			return
 		}
